@@ -3,6 +3,8 @@ SPEC = {
     "parts": [
         {"name": "extract", "pkg": "./internal/dnsforward/", "run": "^TestVerifC16$",
          "harness": ["dnsforward/c16_*.go"], "timeout_quick": 600, "timeout_thorough": 3000},
+        {"name": "handoff", "pkg": "./internal/dnsforward/", "run": "^TestVerifC16Handoff$",
+         "harness": ["dnsforward/c16_*.go"], "timeout_quick": 600, "timeout_thorough": 3000},
     ],
 }
 
